@@ -38,7 +38,7 @@ structure StepCXP (P : Nat → Prop) (v : FatVolume) (s : Mgr) (op : Op) : Prop 
   crash : ∀ k, CIXP P v (crashDisk s.dev.disk (Model.step s op).2.writes k)
   raw : RawOKX v.fatType (Model.step s op).1.dev.disk (Model.step s op).1.files
 
-theorem stepCX_of_callCXP {v : FatVolume} {s : Mgr} {op : Op} (hl : s.locked = false)
+theorem stepCXP_of_callCXP {v : FatVolume} {s : Mgr} {op : Op} (hl : s.locked = false)
     (h : CallCXP P v (resetLogs s) (runOp op (resetLogs s)).2) : StepCXP P v s op := by
   have hs := step_unlocked s op hl
   have e : newWrites (devFS (resetLogs s)) (devFS (runOp op (resetLogs s)).2) = (runOp op (resetLogs s)).2.dev.wlog.reverse := by
